@@ -118,3 +118,11 @@ PROPS["C15"] = {
     "assumptions": E2E_TB + ["quiescence = descriptor and task counts unchanged for 2 s (watchdog 30 s; not settling is inconclusive)"],
     "plan": [{"name": "teardown", "check": "c15", "bin": "osv-e2e", "timeout": {"quick": 900, "thorough": 3600}}],
 }
+
+PROPS["C16"] = {
+    "level": "exploration",
+    "rule": "the SHIPPED binaries (built with the hook feature off) are started with every documented value: Shadowsocks server x cipher name (7 + alias) x mode (5) with the documented socket set (tcp -> TCP; udp -> UDP; tcp_and_udp -> TCP+UDP; quic -> QUIC/UDP; tcp_and_quic -> TCP+QUIC/UDP), VMess and Trojan servers with and without a quic section, client modes (3) x cipher names; observers: sockets held by the process (/proc/<pid>/fd joined with /proc/net/tcp,udp), a canary through the independent reference client / reference server configured from the same README-level credential (so the name must select exactly that algorithm, key size and credential format), exit status and log; and 19 undocumented or inconsistent values (unknown / wrong-case / empty / missing cipher, protocol and mode names, keys of 0/16/31/33 bytes or not base64, short user key, malformed UUID, missing certificate files, VMess with an unlisted cipher): an error must be reported, no panic, no listening service, no silent fallback; quick covers three cipher names per mode plus every name with tcp_and_udp, thorough the full product; evaluations = process starts; distinct = distinct configurations",
+    "exhaustive_note": "thorough enumerates the documented value table (ciphers x modes) completely; the bad-value list is a fixed catalogue",
+    "assumptions": TB + ["'reported' = non-zero exit status or a log line at ERROR level", "canaries use loopback echo targets"],
+    "plan": [{"name": "config-table", "check": "c16", "bin": "osv-e2e", "shipped": True, "timeout": {"quick": 900, "thorough": 3600}}],
+}
